@@ -42,6 +42,8 @@ def check(chk):
     game = repo.cls(GM, G)
     run = repo.func(GM, G + "._run")
     _drain_chain(chk, repo)
+    from sa.helpers import game_ended_only_through_its_api
+    game_ended_only_through_its_api(chk, "PAIR-7")
     _game_end_waits(chk)
 
     # ------------------------------------------------------------ TRACE-1
@@ -580,6 +582,7 @@ def battery():
         M("all new balls relayed as drained", "mpf/core/ball_controller.py", "    def _ball_drained_handler(self, new_balls: int, unclaimed_balls: int, device: BallDevice, **kwargs) -> None:\n        del kwargs\n        del new_balls\n        self.machine.events.post_relay('ball_drain',\n                                       device=device,\n                                       balls=unclaimed_balls)", "    def _ball_drained_handler(self, new_balls: int, unclaimed_balls: int, device: BallDevice, **kwargs) -> None:\n        del kwargs\n        del unclaimed_balls\n        self.machine.events.post_relay('ball_drain',\n                                       device=device,\n                                       balls=new_balls)", "DRAIN-6"),
         M("game takes drains before claiming devices", GM, "        self.add_mode_event_handler('ball_drain', self.ball_drained)", "        self.add_mode_event_handler('ball_drain', self.ball_drained, priority=1000)", "DRAIN-6"),
         M("single drains only", GM, "        if balls:\n            self.debug_log(\"Processing %s newly-drained ball(s)\", balls)", "        if balls == 1:\n            self.debug_log(\"Processing %s newly-drained ball(s)\", balls)", "DRAIN-6"),
+        M("ball search gives up by stopping the game mode directly", "mpf/core/ball_search.py", "                self.info_log(\"Ending the game\")\n                self.machine.game.end_game()", "                self.info_log(\"Ending the game\")\n                self.machine.game.stop()", "PAIR-7"),
     ]
 
 
